@@ -1,7 +1,11 @@
 """C02 - saving and re-loading a configuration reproduces it exactly, in every format.
-Decided on spec/PersistMachine.tla: C02_Reproduces, C02_PlainTree (see persist.py)."""
-from . import persist
+Decided on spec/PersistMachine.tla: C02_Reproduces, C02_PlainTree (see persist.py), and - for
+every schema shape - on the generated schema family of spec/ConfigMachine.tla (action RoundTrip:
+dumps in each real format, a fresh configuration loads the document; predicate C02_Reproduces
+there; see cfgfamily.py)."""
+from . import cfgfamily, cfgmachine, persist
 
 
 def run(tier, seed):
-    return persist.run_persist("C02", ["C02_PlainTree"], ["C02_Reproduces"], tier, seed)
+    out = persist.run_persist("C02", ["C02_PlainTree"], ["C02_Reproduces"], tier, seed)
+    return cfgmachine.merge(out, cfgfamily.run_family("C02", [], ["C02_Reproduces"], tier, seed))
